@@ -620,8 +620,13 @@ func lookupDescendant(c xnode, path []xml.Name) (string, bool) {
 		case Container:
 			return lookupDescendant(ch, tl)
 		case Leaf:
-			// Compiler enforces non-empty leaf reference
-			return ch.YangDataValuesNoSorting()[0], true
+			// Compiler enforces non-empty leaf reference; a node
+			// that carries no value all the same has none to compare
+			vals := ch.YangDataValuesNoSorting()
+			if len(vals) == 0 {
+				return "", false
+			}
+			return vals[0], true
 		default:
 			return "", false
 		}
